@@ -74,9 +74,10 @@ def mc_cfg_text(m):
     return "\n".join(lines) + "\n"
 
 def spec_hash():
+    """only the modules the exploration depends on (the judge TraceAnyVec.tla does not change the cases)"""
     h = hashlib.sha256()
-    for f in sorted(glob.glob(os.path.join(SPEC, "*.tla"))):
-        h.update(open(f, "rb").read())
+    for f in ("AnyVec.tla", "VecOps.tla", "MC_AnyVec.tla"):
+        h.update(open(os.path.join(SPEC, f), "rb").read())
     return h.hexdigest()[:12]
 
 def gen_cases(name, model, force=False):
